@@ -437,6 +437,10 @@ def o_ranges(case):
     if from_public:
         node = node.public_copy()
         ref0 = ref0.public()
+    # ".pub" after a last component that is a single index (the form subkey_for_path understands): the public nodes
+    pub_suffix = bool(case.get("pub_suffix")) and len(case["comps"][-1]) == 1 and case["comps"][-1][0][1] == 1
+    if pub_suffix:
+        s += ".pub"
     got = list(node.subkeys(s))
     if len(got) != len(expansion):
         _bad("bip32:ranges:count", "subkeys(%r) yields %d keys, the range denotes %d paths" % (s, len(got), len(expansion)))
@@ -451,9 +455,13 @@ def o_ranges(case):
             ref = cache[key]
             if ref is None:
                 return ["out-of-reach:invalid-child"]
+        if pub_suffix:
+            ref = ref.public()
         compare("ranges", g, ref, vers, "subkeys(%r) element for path %s (seed %s, %s, %s)" % (
             s, "/".join("%d%s" % (i, "H" if h else "") for i, h in p), case["seed"], code, "public" if from_public else "private"))
     labels = ["keys=%d" % min(len(expansion), 16), "from-public" if from_public else "from-private", "components=%d" % len(case["comps"])]
+    if pub_suffix:
+        labels.append(".pub-suffix")
     if any(len(c) > 1 for c in case["comps"]):
         labels.append("comma-list")
     if any(w > 1 for c in case["comps"] for _lo, w, _h, _sp in c):
@@ -481,7 +489,7 @@ def s_ranges():
             out.append(comp)
         return out
     return st.fixed_dictionaries({
-        "net": st.sampled_from(NETCODES), "seed": seeds(), "public": st.sampled_from([0, 0, 1]),
+        "net": st.sampled_from(NETCODES), "seed": seeds(), "public": st.sampled_from([0, 0, 1]), "pub_suffix": st.sampled_from([0, 0, 1]),
         "comps": st.lists(st.one_of(single, multi, multi), min_size=1, max_size=4).map(bound)})
 
 
